@@ -190,21 +190,93 @@ Definition estep (s : estate * estate) (o : eop) : estate * estate :=
   end.
 Definition erun (ops : list eop) := fold_left estep ops (inl 0%Z, inl 0%Z).
 
-(* non-trivial element type in the LEFT member (maybe<T> = either<T,nothing_t>): a union member is
-   Constructed or Raw storage; the specialisations never run a destructor (~either() {} / defaulted over a
-   union) and assign into the member without constructing it (base_either::operator=(const T&)). *)
-Inductive slot := Raw | Constructed (v : Z).
-Record nobj := mkN { ntag_left : bool; nslot : slot; nval : Z }.   (* nval: the bytes, whatever their status *)
-Record nstat := mkNS { constructed : nat; destroyed : nat; raw_assign : nat }.
-(* maybe<T>(nothing) ; operator=(const T&) ; operator=(nothing) ; destruction *)
-Definition n_nothing : nobj := mkN false Raw 0%Z.
-Definition n_set (o : nobj) (st : nstat) (v : Z) : nobj * nstat :=
-  match nslot o with
-  | Constructed _ => (mkN true (Constructed v) v, st)                         (* T::operator= on a live object *)
-  | Raw => (mkN true Raw v, mkNS (constructed st) (destroyed st) (S (raw_assign st)))   (* T::operator= on raw storage *)
+(* ---------- maybe<T> / either<T,long> for a NON-trivial element type T ----------
+   (maybe.hpp:98-200 second specialisation; either.hpp:208-262 "~either() {}" specialisation.)
+   The union member that holds a T is either constructed or raw storage.  The code as it is
+     - never runs ~T (defaulted / empty destructor over the union),
+     - assigns with T::operator= into the member whatever its status (base_either::operator=(const T&),
+       either's copy constructor, maybe::operator=(const maybe&)),
+     - placement-news a fresh T over the member when an either assignment switches the tag to LEFT,
+     - overwrites the member's bytes when the long alternative is written.
+   The model counts the payload events exactly: constructions, destructions, assignments, assignments into raw
+   storage.  A history starts with A and B default-constructed in dirty storage; every later construction happens in
+   dirty storage as well (the driver fills the buffer with 0xAB before each placement new). *)
+Inductive slot := Raw | Con.
+Record ncnt := mkC { n_ctor : nat; n_dtor : nat; n_asg : nat; n_asgraw : nat }.
+Definition cnt0 : ncnt := mkC 0 0 0 0.
+Definition c_ctor (c : ncnt) := mkC (S (n_ctor c)) (n_dtor c) (n_asg c) (n_asgraw c).
+Definition c_dtor (c : ncnt) := mkC (n_ctor c) (S (n_dtor c)) (n_asg c) (n_asgraw c).
+(* T::operator= on a member in state sl *)
+Definition c_assign (sl : slot) (c : ncnt) :=
+  match sl with
+  | Con => mkC (n_ctor c) (n_dtor c) (S (n_asg c)) (n_asgraw c)
+  | Raw => mkC (n_ctor c) (n_dtor c) (S (n_asg c)) (S (n_asgraw c))
   end.
-Definition n_reset (o : nobj) : nobj := mkN false (nslot o) (nval o).          (* tag only: the T object is not destroyed *)
-Definition n_destroy (o : nobj) (st : nstat) : nstat := st.                     (* no destructor call *)
+Definition n_live (c : ncnt) : nat := n_ctor c - n_dtor c.
+
+(* --- utl::maybe<T> --- *)
+Inductive mop := MDefault | MReset | MSet (v : Z) | MCtorVal (v : Z) | MCopyCtor | MAssignAB | MAssignBA | MSelfAssign | MFlip.
+Record mobj := mkM { m_has : bool; m_slot : slot; m_val : Z }.
+Definition m_fresh : mobj := mkM false Raw 0%Z.                       (* maybe() : base(nothing) in dirty storage *)
+(* operator=(const maybe& other) *)
+Definition m_assign (dst src : mobj) (c : ncnt) : mobj * ncnt :=
+  if m_has src then (mkM true (m_slot dst) (m_val src), c_assign (m_slot dst) c)   (* this->left = other.left *)
+  else (mkM false (m_slot dst) (m_val dst), c).                                     (* this->right = other.right: tag only *)
+Definition mstep (s : mobj * mobj * ncnt) (o : mop) : mobj * mobj * ncnt :=
+  let '(a, b, c) := s in
+  match o with
+  | MDefault => (m_fresh, b, c)                                   (* the old object is destroyed: no ~T *)
+  | MReset => (mkM false (m_slot a) (m_val a), b, c)              (* = nothing : tag only, the T object stays *)
+  | MSet v => (mkM true (m_slot a) v, b, c_dtor (c_assign (m_slot a) (c_ctor c)))   (* temporary T(v); left = val; ~temporary *)
+  | MCtorVal v => (mkM true Con v, b, c_dtor (c_ctor (c_ctor c)))  (* temporary; maybe(const T&): left(val) constructs; ~temporary *)
+  | MCopyCtor => (a, if m_has a then mkM true Con (m_val a) else m_fresh, if m_has a then c_ctor c else c)
+                                                                  (* maybe(const maybe&): new(&left) T(other.left) *)
+  | MAssignAB => let (b', c') := m_assign b a c in (a, b', c')
+  | MAssignBA => let (a', c') := m_assign a b c in (a', b, c')
+  | MSelfAssign => let (a', c') := m_assign a a c in (a', b, c')
+  | MFlip => (b, a, c)
+  end.
+Definition mrun (ops : list mop) := fold_left mstep ops (m_fresh, m_fresh, cnt0).
+Definition m_obs (m : mobj) : option Z := if m_has m then Some (m_val m) else None.
+(* std::optional *)
+Definition mspec_step (s : option Z * option Z) (o : mop) : option Z * option Z :=
+  let (a, b) := s in
+  match o with
+  | MDefault | MReset => (None, b)
+  | MSet v | MCtorVal v => (Some v, b)
+  | MCopyCtor | MAssignAB => (a, a)
+  | MAssignBA => (b, b)
+  | MSelfAssign => (a, b)
+  | MFlip => (b, a)
+  end.
+Definition mspec_run (ops : list mop) := fold_left mspec_step ops (None, None).
+
+(* --- utl::either<T,long> --- *)
+Record eobj := mkE { e_left : bool; e_slot : slot; e_val : Z }.
+Definition e_default (c : ncnt) : eobj * ncnt := (mkE true Con 0%Z, c_ctor c).     (* either() : left{} *)
+(* either(const either& other): tag = other.tag; left = other.left (ASSIGNMENT into the raw member) / right = other.right *)
+Definition e_copyctor (src : eobj) (c : ncnt) : eobj * ncnt :=
+  if e_left src then (mkE true Raw (e_val src), c_assign Raw c) else (mkE false Raw (e_val src), c).
+(* operator=(const either& other): on a tag switch placement-new T{} (or long{} over the member's bytes), then assign *)
+Definition e_assign (dst src : eobj) (c : ncnt) : eobj * ncnt :=
+  let '(sl, c1) := if Bool.eqb (e_left src) (e_left dst) then (e_slot dst, c)
+                   else if e_left src then (Con, c_ctor c) else (Raw, c) in
+  if e_left src then (mkE true sl (e_val src), c_assign sl c1) else (mkE false Raw (e_val src), c1).
+Definition enstep (s : eobj * eobj * ncnt) (o : eop) : eobj * eobj * ncnt :=
+  let '(a, b, c) := s in
+  match o with
+  | EDefault => let (a', c') := e_default c in (a', b, c')
+  | ELeftSet v => (mkE true (e_slot a) v, b, c_dtor (c_assign (e_slot a) (c_ctor c)))  (* temporary T(v); left = val; ~temporary *)
+  | ERightSet v => (mkE false Raw v, b, c)                                             (* right = val over the member's bytes *)
+  | ECopyCtor => let (b', c') := e_copyctor a c in (a, b', c')
+  | EAssignAB => let (b', c') := e_assign b a c in (a, b', c')
+  | EAssignBA => let (a', c') := e_assign a b c in (a', b, c')
+  | ESelfAssign => let (a', c') := e_assign a a c in (a', b, c')
+  | EFlip => (b, a, c)
+  end.
+Definition enrun (ops : list eop) :=
+  let (a, c1) := e_default cnt0 in let (b, c2) := e_default c1 in fold_left enstep ops (a, b, c2).
+Definition e_obs (e : eobj) : Z + Z := if e_left e then inl (e_val e) else inr (e_val e).
 
 (* ---------- nmtools::small_vector<T,DIM> (utility/small_vector.hpp:45-140), default configuration:
    either_t = std::variant, static_vector_t = utl::static_vector, vector_t = std::vector.  The inline arm is the
